@@ -249,7 +249,10 @@ def opSess (toks : List String) : String :=
   match p.run toks with
   | some ((q, filters, jobs), []) =>
     let l0 := ObsM.ObsList.init q (filters.map (ObsM.Obs.init q))
-    match Sess.run l0 jobs with
+    -- the wire format carries no table of external functions: `default` is the `Pipe.Ext` the C05 operations use when no
+    -- table is sent.  `tx` jobs are sent for properties / ini / inc / po, which never consult it
+    -- (`PipeBridge.parseFile_ext_irrel`); a DTD `tx` comparison is `Unmodelled` as before (`Pipe.plainFmt`).
+    match Sess.run default l0 jobs with
     | .error e => "raise " ++ e.name
     | .ok (l, outcomes) =>
       "ok m=" ++ ",".intercalate (outcomes.map Ops.C04.showOutcome) ++ " |L " ++ showObs l.own ++
